@@ -522,8 +522,9 @@ pub fn generate(seed: u64, g: &GenB) -> PlanB {
         };
         let mut port;
         loop {
-            port = r.range(1024, 65000) as u16;
-            if port != 53 && used_ports.insert(port) {
+            /* 3000..59999: follow-ups, probes and hostile inputs use their own ranges */
+            port = r.range(3000, 59999) as u16;
+            if used_ports.insert(port) {
                 break;
             }
         }
